@@ -67,6 +67,13 @@ def fault_list(d):
     for foreign in (st[:1] + ca[:1] + ["undeclared_q"]):
         F.append(("process-noise", f"extra noise for {foreign}" if ct else f"noise for {foreign} with no controls", "ekf",
                   lambda r, f=foreign: r["process_noise"].__setitem__(Sy(f), 0.5)))
+    # 4b. a control's noise entry replaced by an entry keyed by a PAIR of controls (the count of entries stays right)
+    if len(ct) >= 2:
+        for c in ct:
+            other = [x for x in ct if x != c][0]
+            for val in (0.0, 0.5):
+                F.append(("process-noise", f"noise of {c} replaced by an entry for the pair ({c}, {other}) = {val}", "ekf",
+                          lambda r, c=c, other=other, val=val: (r["process_noise"].pop(Sy(c)), r["process_noise"].__setitem__((Sy(c), Sy(other)), val))))
     # 5. sensor models
     for key, rs in d["sensors"]:
         for rn, _ in rs:
